@@ -299,6 +299,36 @@ def check(cx):
     depends(cx, r9, 'C04', ('R4.4',), 'Channel::add_*/remove_* update exactly (rank set, member flag)', only=r'^Channel::(add|remove)_(operator|half_operator|voice|founder|protected)\|')
 
     # ---------------------------------------------------------------- R8.8 parameter cursor
+    # ---------------------------------------------------------------- R8.10 what a later MODE query shows
+    r10 = cx.rule('R8.10', 'mode display: letters and their parameters in the same order', floor=2, kind='agreement')
+    fdisp = [b_ for b_ in prog.bodies if b_.endswith('::fmt') and 'config::ChannelModes as std::fmt::Display' in b_]
+    if not fdisp:
+        raise AnchorLost('Display for ChannelModes not found')
+    wd_ = cx.walk(fdisp[0], args=[P('self'), P('f')], key='c08d')
+    apps_ = [e for e in wd_.events if e.kind == 'local_mut' and e.data['method'] in ('push', 'push_str', 'add_assign', 'init')]
+    PARAM_OF = {'k': 'key', 'l': 'client_limit'}
+    pos = {}
+    for e in apps_:
+        a0 = e.data['args'][0] if e.data['args'] else None
+        if isinstance(a0, tuple) and a0[:1] == ('lit',) and a0[1] in PARAM_OF and ('letter', a0[1]) not in pos:
+            pos[('letter', a0[1])] = e
+        for L, fld in PARAM_OF.items():
+            if isinstance(a0, tuple) and mentions(a0, field(P('self'), fld)) and ('param', L) not in pos:
+                pos[('param', L)] = e
+    for L, fld in PARAM_OF.items():
+        r10.instance("'%s' is shown with %s" % (L, fld))
+        if ('letter', L) not in pos or ('param', L) not in pos:
+            r10.violation('ChannelModes::fmt|missing|%s' % L, "mode '%s' is not shown with its parameter" % L, loc=fdisp[0])
+        elif not equivalent(pos[('letter', L)].pc, pos[('param', L)].pc)[0]:
+            r10.violation('ChannelModes::fmt|condition|%s' % L, "mode letter '%s' and its parameter are shown under different conditions" % L,
+                          loc=cx.loc(pos[('param', L)].node))
+    have = [L for L in PARAM_OF if ('letter', L) in pos and ('param', L) in pos]
+    for i_, a_ in enumerate(have):
+        for b_ in have[i_ + 1:]:
+            if (pos[('letter', a_)].seq < pos[('letter', b_)].seq) != (pos[('param', a_)].seq < pos[('param', b_)].seq):
+                r10.violation('ChannelModes::fmt|parameter-order|%s%s' % (a_, b_), "the parameters of '%s' and '%s' are listed in the opposite order "
+                              'of their letters: a MODE query shows each with the other\'s value' % (a_, b_), loc=cx.loc(pos[('param', b_)].node))
+
     r8 = cx.rule('R8.8', 'parameter cursor lock-step with the validator', floor=10, kind='agreement')
     check_cursor(cx, r8, w, mchar, sign, privf['halfop+'], fc)
 
